@@ -21,4 +21,10 @@ CHECKS = {
        'One update_nodes()/integrate()/compute_end_point() of generic_implicit, explicit, imex_1st_order, imex_1st_order_mass, multi_implicit and every RungeKutta/RungeKuttaIMEX subclass is compared with the algebraic iteration; '
        'QDelta matrices are cross-checked against an independent qmat construction, closed forms and the k-refresh rule. Exploration level.',
   note='Trusted: numpy dense solves; qmat as the definition of the named preconditioners (cross-checked with closed forms for IE/EE/PIC/IEpar/MIN-SR-NS). Ill-conditioned node systems (cond>1e8) are discarded and counted. Known finding F10 (LDU with left end node).'),
+ 'C16': dict(
+  level='fault_enumeration',
+  technique='model-based property testing of file histories with exhaustive crash-offset enumeration (every byte of header creation and of each append) and exhaustive block-decomposition enumeration',
+  text='A reference model (header + list of (time, field bytes)) is run in lockstep with FieldsIO (Scalar, Rectilinear 1-3D, every available dtype): generated histories of create/add/crash/re-open (generic and specialised)/read/'
+       're-initialise/fresh-process read with arbitrary bit patterns; for 14 small configurations every crash offset is enumerated. BlockDecomposition is enumerated for 1..64 ranks x all 1-D/2-D grids (<=9 quick, <=16 thorough) x both algorithms and sampled in 3-D.',
+  note='Crash model: an interrupted append leaves a prefix of the record (sequential write stream). MPI-IO paths cannot run without mpi4py and are not covered. One defect (F1) found and fixed.'),
 }
